@@ -7,7 +7,11 @@
     - Theorems without any cryptographic premise: the signing bytes determine
       everything that is signed (RLP injectivity); every (account, nonce) is
       accepted at most once over ALL histories of submissions, in any order, with
-      arbitrary outcomes of the unmodelled checks; a replay-protected transaction
+      arbitrary outcomes of the unmodelled checks -- also when one Cosmos
+      transaction carries several MsgEthereumTx: each (account, nonce) executes
+      at most once even inside one transaction, a transaction containing a
+      duplicated, replayed or out-of-order message is rejected as a whole and
+      has no effect, in-order batches are accepted; a replay-protected transaction
       for another chain id, and an unprotected one while AllowUnprotectedTxs is
       false, are refused; a correctly signed transaction with the right nonce is
       accepted.  They hold for ANY hash, recovery, signing and verification
@@ -108,6 +112,172 @@ Theorem C03_honest_tx_accepted :
       = (upd (list_eq_dec N.eq_dec) st (addr k) (st (addr k) + 1)%N, Some (addr k)).
 Proof. exact @honest_tx_accepted. Qed.
 Print Assumptions C03_honest_tx_accepted.
+
+(** * Ethereum route: several MsgEthereumTx in one Cosmos transaction
+
+    [step_eth_tx st (msgs, ok)]: EthSigVerificationDecorator authenticates every
+    message, EthIncrementSenderSequenceDecorator then demands, message by message,
+    nonce = the sender's CURRENT sequence and bumps it; all or nothing.
+    [executed_eth st h j k a n]: message [k] of transaction [j] of history [h]
+    was executed on behalf of [a] with nonce [n]. *)
+
+(** Over all histories of multi-message transactions (any mix of valid,
+    duplicated, replayed, out-of-order messages, any senders, any verdicts of the
+    unmodelled checks): a given (account, nonce) is executed at most once --
+    neither in two transactions nor twice inside one. *)
+Theorem C03_tx_each_nonce_once :
+  forall (hash : list N -> list N) (recover : list N -> Z -> Z -> Z -> option (list N))
+         (cfg : chain_cfg) (h : list (list eth_tx * bool)) (st : list N -> N) (j k j' k' : nat) (a : list N) (n : N),
+    executed_eth hash recover cfg st h j k a n ->
+    executed_eth hash recover cfg st h j' k' a n -> j = j' /\ k = k'.
+Proof. exact eth_tx_each_nonce_once. Qed.
+Print Assumptions C03_tx_each_nonce_once.
+
+(** A rejected transaction has no effect at all (no message of it executes, no
+    sequence moves). *)
+Theorem C03_tx_reject_no_effect :
+  forall (hash : list N -> list N) (recover : list N -> Z -> Z -> Z -> option (list N))
+         (cfg : chain_cfg) (st : list N -> N) (x : list eth_tx * bool),
+    snd (step_eth_tx hash recover cfg st x) = None -> fst (step_eth_tx hash recover cfg st x) = st.
+Proof. exact eth_tx_reject_no_effect. Qed.
+Print Assumptions C03_tx_reject_no_effect.
+
+(** Acceptance, exactly: the other checks passed; every message is authenticated
+    (protection, chain id, recovered sender) and carries its sender's sequence at
+    the start of the transaction plus the number of that sender's EARLIER
+    messages in it; afterwards every sequence has grown by the number of the
+    account's messages. *)
+Theorem C03_tx_accept_spec :
+  forall (hash : list N -> list N) (recover : list N -> Z -> Z -> Z -> option (list N))
+         (cfg : chain_cfg) (st : list N -> N) (ms : list eth_tx) (ok : bool) (l : list (list N)),
+    snd (step_eth_tx hash recover cfg st (ms, ok)) = Some l ->
+    ok = true /\ length l = length ms /\
+    (forall (k : nat) (m : eth_tx) (a : list N), nth_error ms k = Some m -> nth_error l k = Some a ->
+       auth_eth hash recover cfg st m = Some a /\
+       tx_nonce m = (st a + N.of_nat (count_occ (list_eq_dec N.eq_dec) (firstn k l) a))%N) /\
+    (forall b : list N, fst (step_eth_tx hash recover cfg st (ms, ok)) b
+                        = (st b + N.of_nat (count_occ (list_eq_dec N.eq_dec) l b))%N).
+Proof. exact eth_tx_accept_spec. Qed.
+Print Assumptions C03_tx_accept_spec.
+
+(** Replay: once message (a, n) has been executed, every later transaction that
+    contains -- anywhere among its messages -- a message of [a] with nonce [n] is
+    rejected as a whole and leaves the state as it was. *)
+Theorem C03_tx_replay_rejected :
+  forall (hash : list N -> list N) (recover : list N -> Z -> Z -> Z -> option (list N))
+         (cfg : chain_cfg) (h : list (list eth_tx * bool)) (st : list N -> N) (j k : nat) (a : list N) (n : N)
+         (j' : nat) (ms : list eth_tx) (ok : bool) (m : eth_tx),
+    executed_eth hash recover cfg st h j k a n -> (j < j')%nat ->
+    nth_error h j' = Some (ms, ok) -> In m ms ->
+    auth_eth hash recover cfg st m = Some a -> tx_nonce m = n ->
+    nth_error (outcomes_eth_tx hash recover cfg st h) j' = Some None /\
+    final_eth_tx hash recover cfg st (firstn (S j') h) = final_eth_tx hash recover cfg st (firstn j' h).
+Proof. exact eth_tx_replay_rejected. Qed.
+Print Assumptions C03_tx_replay_rejected.
+
+(** The same signed transaction twice, or two transactions of one sender with the
+    same nonce, inside one Cosmos transaction: rejected as a whole, no effect. *)
+Theorem C03_tx_duplicate_rejected :
+  forall (hash : list N -> list N) (recover : list N -> Z -> Z -> Z -> option (list N))
+         (cfg : chain_cfg) (st : list N -> N) (ms : list eth_tx) (ok : bool) (k k' : nat) (m m' : eth_tx) (a : list N),
+    k <> k' -> nth_error ms k = Some m -> nth_error ms k' = Some m' ->
+    auth_eth hash recover cfg st m = Some a -> auth_eth hash recover cfg st m' = Some a ->
+    tx_nonce m = tx_nonce m' ->
+    step_eth_tx hash recover cfg st (ms, ok) = (st, None).
+Proof. exact eth_tx_duplicate_rejected. Qed.
+Print Assumptions C03_tx_duplicate_rejected.
+
+(** Out of order (gap, future nonce, reversed, duplicate): a message whose nonce
+    is not its sender's sequence at that point of the transaction makes the whole
+    transaction fail without effect. *)
+Theorem C03_tx_out_of_order_rejected :
+  forall (hash : list N -> list N) (recover : list N -> Z -> Z -> Z -> option (list N))
+         (cfg : chain_cfg) (st : list N -> N) (ms : list eth_tx) (ok : bool) (l : list (list N))
+         (k : nat) (m : eth_tx) (a : list N),
+    auth_all (auth_eth hash recover cfg) st ms = Some l ->
+    nth_error ms k = Some m -> nth_error l k = Some a ->
+    tx_nonce m <> (st a + N.of_nat (count_occ (list_eq_dec N.eq_dec) (firstn k l) a))%N ->
+    step_eth_tx hash recover cfg st (ms, ok) = (st, None).
+Proof. exact eth_tx_out_of_order_rejected. Qed.
+Print Assumptions C03_tx_out_of_order_rejected.
+
+(** A message with an already used nonce anywhere in the transaction. *)
+Theorem C03_tx_stale_rejected :
+  forall (hash : list N -> list N) (recover : list N -> Z -> Z -> Z -> option (list N))
+         (cfg : chain_cfg) (st : list N -> N) (ms : list eth_tx) (ok : bool) (m : eth_tx) (a : list N),
+    In m ms -> auth_eth hash recover cfg st m = Some a -> (tx_nonce m < st a)%N ->
+    step_eth_tx hash recover cfg st (ms, ok) = (st, None).
+Proof. exact eth_tx_stale_rejected. Qed.
+Print Assumptions C03_tx_stale_rejected.
+
+(** One foreign-chain or unprotected message poisons the whole transaction. *)
+Theorem C03_tx_foreign_chain_rejected :
+  forall (hash : list N -> list N) (recover : list N -> Z -> Z -> Z -> option (list N))
+         (cfg : chain_cfg) (st : list N -> N) (ms : list eth_tx) (ok : bool) (tx : eth_tx),
+    In tx ms -> protected tx = true -> chain_id tx <> c_eip155 cfg ->
+    step_eth_tx hash recover cfg st (ms, ok) = (st, None).
+Proof. exact eth_tx_foreign_chain_rejected. Qed.
+Print Assumptions C03_tx_foreign_chain_rejected.
+
+Theorem C03_tx_unprotected_rejected :
+  forall (hash : list N -> list N) (recover : list N -> Z -> Z -> Z -> option (list N))
+         (cfg : chain_cfg) (st : list N -> N) (ms : list eth_tx) (ok : bool) (tx : eth_tx),
+    In tx ms -> c_allow_unprotected cfg = false -> protected tx = false ->
+    step_eth_tx hash recover cfg st (ms, ok) = (st, None).
+Proof. exact eth_tx_unprotected_rejected. Qed.
+Print Assumptions C03_tx_unprotected_rejected.
+
+(** The positive direction: authenticated messages whose nonces follow their
+    senders' sequences (n, n+1, ... per sender, senders interleaved at will) are
+    accepted together. *)
+Theorem C03_tx_in_order_accepted :
+  forall (hash : list N -> list N) (recover : list N -> Z -> Z -> Z -> option (list N))
+         (cfg : chain_cfg) (st : list N -> N) (ms : list eth_tx) (l : list (list N)),
+    ms <> [] -> auth_all (auth_eth hash recover cfg) st ms = Some l ->
+    (forall (k : nat) (m : eth_tx) (a : list N), nth_error ms k = Some m -> nth_error l k = Some a ->
+       tx_nonce m = (st a + N.of_nat (count_occ (list_eq_dec N.eq_dec) (firstn k l) a))%N) ->
+    snd (step_eth_tx hash recover cfg st (ms, true)) = Some l.
+Proof. exact eth_tx_in_order_accepted. Qed.
+Print Assumptions C03_tx_in_order_accepted.
+
+(** The one-message transaction is the machine of the theorems above
+    ([step_eth]), so those keep describing ordinary JSON-RPC traffic. *)
+Theorem C03_tx_singleton :
+  forall (hash : list N -> list N) (recover : list N -> Z -> Z -> Z -> option (list N))
+         (cfg : chain_cfg) (st : list N -> N) (tx : eth_tx) (ok : bool),
+    step_eth_tx hash recover cfg st ([tx], ok)
+    = (fst (step_eth hash recover cfg st (tx, ok)),
+       option_map (fun a => [a]) (snd (step_eth hash recover cfg st (tx, ok)))).
+Proof. exact eth_tx_singleton. Qed.
+Print Assumptions C03_tx_singleton.
+
+(** Non-vacuity (toy signature scheme; key 42 at sequence 5, key 43 at 0): a valid
+    two-message transaction and a transaction of two interleaved senders are
+    accepted and every message executes; the same signed transaction twice, a
+    same-nonce pair, a gap, reversed nonces, a duplicate behind another sender's
+    message are each rejected as a whole with the sequences untouched; in a
+    history a replayed message poisons the transaction it sits in. *)
+Theorem C03_tx_nonvacuous :
+  (outcomes_eth_tx toy_hash toy_recover ex_cfg ex_state [([ex_tx 42 5 1; ex_tx 42 6 2], true)]
+   = [Some [toy_addr 42; toy_addr 42]] /\
+   seq_of (final_eth_tx toy_hash toy_recover ex_cfg ex_state [([ex_tx 42 5 1; ex_tx 42 6 2], true)]) = (7%N, 0%N)) /\
+  (outcomes_eth_tx toy_hash toy_recover ex_cfg ex_state
+     [([ex_tx 42 5 1; ex_tx 43 0 1; ex_tx 42 6 2; ex_tx 43 1 2], true)]
+   = [Some [toy_addr 42; toy_addr 43; toy_addr 42; toy_addr 43]] /\
+   seq_of (final_eth_tx toy_hash toy_recover ex_cfg ex_state
+     [([ex_tx 42 5 1; ex_tx 43 0 1; ex_tx 42 6 2; ex_tx 43 1 2], true)]) = (7%N, 2%N)) /\
+  (let bad := [ [ex_tx 42 5 1; ex_tx 42 5 1]; [ex_tx 42 5 1; ex_tx 42 5 9]; [ex_tx 42 5 1; ex_tx 42 7 1];
+                [ex_tx 42 6 1; ex_tx 42 5 1]; [ex_tx 42 5 1; ex_tx 43 0 1; ex_tx 42 5 1];
+                [ex_tx 43 0 1; ex_tx 42 5 1; ex_tx 42 6 1; ex_tx 42 6 1] ] in
+   map (fun ms => (snd (step_eth_tx toy_hash toy_recover ex_cfg ex_state (ms, true)),
+                   seq_of (fst (step_eth_tx toy_hash toy_recover ex_cfg ex_state (ms, true))))) bad
+   = repeat (None, (5%N, 0%N)) 6) /\
+  outcomes_eth_tx toy_hash toy_recover ex_cfg ex_state
+    [([ex_tx 42 5 1; ex_tx 42 6 2], true); ([ex_tx 42 7 3; ex_tx 42 6 2], true); ([ex_tx 42 6 2; ex_tx 42 7 3], true);
+     ([ex_tx 42 7 3], true); ([ex_tx 42 7 3], true)]
+  = [Some [toy_addr 42; toy_addr 42]; None; None; Some [toy_addr 42]; None].
+Proof. exact (conj ex_batch_accepted (conj ex_interleaved_accepted (conj ex_bad_batches_rejected ex_history))). Qed.
+Print Assumptions C03_tx_nonvacuous.
 
 (** * Ethereum route: the negative direction (partial: cryptographic premises) *)
 
